@@ -26,6 +26,7 @@ MAX_TX transmissions in one event, or a recursion error are termination violatio
 from __future__ import annotations
 
 import itertools
+import os
 import sys
 import time
 from ipaddress import IPv4Address
@@ -51,6 +52,9 @@ from primaite.simulator.network.hardware.nodes.network.wireless_router import ( 
     WirelessAccessPoint,
     WirelessRouter,
 )
+from primaite.simulator.network.protocols.icmp import ICMPPacket  # noqa: E402
+from primaite.simulator.network.transmission.data_link_layer import EthernetHeader, Frame  # noqa: E402
+from primaite.simulator.network.transmission.network_layer import IPPacket  # noqa: E402
 from primaite.simulator.system.core.software_manager import SoftwareManager  # noqa: E402
 from primaite.simulator.system.core.sys_log import SysLog  # noqa: E402
 from primaite.simulator.system.services.dns.dns_server import DNSServer  # noqa: E402
@@ -210,7 +214,7 @@ def topo(name: str):
         links = [("a", 1, "sw", 1), ("b", 1, "sw", 2), ("c", 1, "sw", 3)]
         dns_ip = "10.0.1.3"
         ev = _pings(["a", "b", "c"], n) + [("pingip", "a", "10.0.1.9"), ("pingip", "a", "10.9.9.9"), ("dns", "a"), ("dns", "c"),
-                                          ("nic", "a", 1), ("nic", "sw", 2), ("pwr", "b"), ("pwr", "sw")]
+                                          ("nic", "a", 1), ("nic", "sw", 2), ("pwr", "b"), ("pwr", "sw"), ("inject", "c", "b")]
     elif name == "r1":
         n["a"], n["b"], n["m"] = _host(A, "10.0.1.1", dns=B), _host(B, "10.0.2.1"), _host(Mh, "10.0.3.1", dns=B)
         n["r1"] = _router({1: ("10.0.1.1", M24), 2: ("10.0.2.1", M24), 3: ("10.0.3.1", M24)})
@@ -626,7 +630,8 @@ def _enter_tx(rec, frame, sender):
             if isinstance(node, ROUTERISH):
                 if not ttl < r_node:
                     how = "connected" if frame.ip.dst_ip_address in sender.ip_network else "routed"
-                    rec.add(violation("ttl_lowered_at_every_hop", "%s:forwards-%s-without-decrement" % (_impl(node, "process_frame"), how),
+                    rec.add(violation("ttl_lowered_at_every_hop", "%s:forwards-without-decrement" % _impl(
+                        node, "process_frame" if how == "connected" else "route_frame"),
                                       "%s received a %s frame for %s with TTL %d and forwarded it (%s) with TTL %d" % (
                                           name, _fkind(frame), frame.ip.dst_ip_address, r_node, how, ttl)))
             elif r_if is not None and not ttl < r_if:
@@ -718,9 +723,15 @@ def _w_handed(orig):
                     own.add(ip)
                     bcast.add(nic.ip_network.broadcast_address)
             if dst not in own and dst not in bcast:
+                mac = frame.ethernet.dst_mac_addr
+                if mac == BCAST_MAC:
+                    site = "%s:foreign-address:broadcast-mac" % _impl(node, "receive_frame")
+                elif mac == from_network_interface.mac_address:
+                    site = "%s:foreign-address:own-mac" % _impl(node, "receive_frame")  # the node does not look at the address
+                else:
+                    site = "%s:foreign-address:foreign-mac" % _impl(from_network_interface, "receive_frame")  # nor the interface at the MAC
                 rec.add(violation(
-                    "handed_to_software_only_on_addressee", "%s:%s" % (
-                        _impl(node, "receive_frame"), "unicast-mac" if frame.ethernet.dst_mac_addr != BCAST_MAC else "broadcast-mac"),
+                    "handed_to_software_only_on_addressee", site,
                     "%s (addresses %s) handed a %s payload addressed to %s (from %s, destination MAC %s) to its software" % (
                         _nname(node), sorted(map(str, own)), _fkind(frame), dst, frame.ip.src_ip_address, frame.ethernet.dst_mac_addr)))
         return orig(self, payload=payload, port=port, protocol=protocol, session_id=session_id,
@@ -829,6 +840,12 @@ class NetAdapter(engine.Adapter):
             nic = net.nodes[ev[1]].network_interface[ev[2]]
             verb = "disable" if nic.enabled else "enable"
             return "%s:%s" % (verb, net.node_req(ev[1], ["network_interface", ev[2], verb]).status)
+        if k == "inject":  # what a switch does with a unicast frame whose MAC it has not learnt: every port gets it
+            src, own, at = net.nodes["a"].network_interface[1], net.nodes[ev[2]].network_interface[1], net.nodes[ev[1]].network_interface[1]
+            fr = Frame(ethernet=EthernetHeader(src_mac_addr=src.mac_address, dst_mac_addr=own.mac_address),
+                       ip=IPPacket(src_ip_address=src.ip_address, dst_ip_address=own.ip_address, protocol="icmp"),
+                       icmp=ICMPPacket(identifier=77, sequence=1), payload="c08-c08-c08-c08-c08-c08-")
+            return bool(at.receive_frame(fr))
         if k == "pwr":
             verb = "shutdown" if net.nodes[ev[1]].operating_state.name == "ON" else "startup"
             return "%s:%s" % (verb, net.node_req(ev[1], [verb]).status)
@@ -981,9 +998,11 @@ class IcmpIdAdapter(NetAdapter):
 QUICK_PLAN = [("lan", 3, 20000, 8), ("r1", 3, 20000, 10), ("r2s", 2, 20000, 8), ("r2d", 3, 20000, 10), ("r3s", 2, 20000, 8),
               ("r3d", 2, 20000, 8), ("fw", 2, 20000, 8), ("sw2r-rrm", 2, 20000, 8), ("sw2r-mrr", 2, 20000, 8), ("wifi", 3, 20000, 6),
               ("hostnh", 3, 20000, 4)]
-THOROUGH_PLAN = [("lan", 6, 400000, 100), ("r1", 5, 400000, 150), ("r2s", 5, 400000, 150), ("r2d", 5, 400000, 150),
-                 ("r3s", 4, 400000, 150), ("r3d", 4, 400000, 150), ("fw", 4, 400000, 150), ("sw2r-rrm", 4, 400000, 120),
-                 ("sw2r-mrr", 4, 400000, 120), ("wifi", 5, 400000, 60), ("hostnh", 6, 400000, 30)]
+THOROUGH_PLAN = [("lan", 6, 400000, 40), ("r1", 5, 400000, 40), ("r2s", 5, 400000, 40), ("r2d", 5, 400000, 40),
+                 ("r3s", 5, 400000, 40), ("r3d", 5, 400000, 40), ("fw", 5, 400000, 40), ("sw2r-rrm", 4, 400000, 30),
+                 ("sw2r-mrr", 4, 400000, 30), ("wifi", 6, 400000, 20), ("hostnh", 8, 400000, 10)]
+# thorough: a level is only started while the time budget (s) is not used up; the last level costs about 3-4 times everything
+# before it, so each harness stays within about 5 times its budget (16 cores: about 25 min in all).
 
 
 def witness(topo_name):
@@ -997,7 +1016,7 @@ def witness(topo_name):
         res = []
         for _ in range(2):
             o, v = ad.apply(s, ev)
-            res.append("violation:" + v[0]["clause"] if v else o[0])
+            res.append("violation:" + v[0]["clause"] if v else ("%s (%d frames)" % (o[0], o[1])))
             if v:
                 break
         out[" ".join(map(str, ev))] = res
@@ -1022,7 +1041,8 @@ def run(tier, is_known):
     viols, samples = [], []
     # adapters and product function are registered before the first pool is forked (one pool for the whole run)
     plan = THOROUGH_PLAN if thorough else QUICK_PLAN
-    adapters = [(NetAdapter(t), d, sb, tb) for t, d, sb, tb in plan]
+    scale = float(os.environ.get("VERIF_C08_TB_SCALE", "1") or 1)  # stretch the time budgets on a loaded / smaller machine
+    adapters = [(NetAdapter(t), d, sb, tb * scale) for t, d, sb, tb in plan]
     idad = IcmpIdAdapter()
     for ad in [a[0] for a in adapters] + [idad]:
         engine._ADAPTERS[ad.name] = ad
@@ -1045,7 +1065,7 @@ def run(tier, is_known):
     per, hist = [], {}
     tot = {"states": 0, "transitions": 0, "outcomes": 0}
     exhaustive = True
-    todo = adapters + [(idad, 5 if thorough else 4, 200000, 120 if thorough else 8)]
+    todo = adapters + [(idad, 7 if thorough else 4, 200000, (60 if thorough else 8) * scale)]
     for ad, depth, budget, tb in todo:
         r = engine.bfs(ad, depth, state_budget=budget, time_budget=tb, is_known=is_known, max_violations=10**7)
         viols += r.violations
@@ -1067,7 +1087,7 @@ def run(tier, is_known):
         wit[t] = w
         for ev, res in w.items():
             for r in res:
-                k = "%s:%s" % (ev.split(" ")[0], r)
+                k = "%s:%s" % (ev.split(" ")[0], str(r).split(" (")[0])
                 wit_counts[k] = wit_counts.get(k, 0) + 1
     viols, counts = _trim(viols)
     cov = {
